@@ -192,6 +192,45 @@ func runC12(env *Env) {
 	const getJS = `[d.getTime(), d.getUTCFullYear(), d.getUTCMonth(), d.getUTCDate(), d.getUTCDay(), d.getUTCHours(), d.getUTCMinutes(), d.getUTCSeconds(), d.getUTCMilliseconds(), d.valueOf(), d.getFullYear(), d.getMonth(), d.getDate(), d.getDay(), d.getHours(), d.getMinutes(), d.getSeconds(), d.getMilliseconds()].join(",")`
 	// pinned witnesses of the listed findings run first
 	pinned := []int64{maxTime + 1, -maxTime - 1}
+	// deterministic grid: month-end and leap-day instants under every argument count of the date-part setters (the
+	// day of the month must be carried by MakeDay with the NEW year and month together, 15.9.5.38-41)
+	{
+		bases := []int64{951782400000, 951825600000 + 3723004, 825552000000, 13574563200000, 949276800000, 954460800000, 978220800000, -2208988800000 + 59*86400000, 1709164800000}
+		type op struct {
+			id   int
+			args []int64
+		}
+		var ops []op
+		for _, y := range []int64{2001, 2004, 1900, 2100, 1999, 0, -1, 99} {
+			ops = append(ops, op{6, []int64{y}})
+			for _, m := range []int64{0, 1, 5, 11, 12, -1, 13} {
+				ops = append(ops, op{6, []int64{y, m}})
+			}
+			ops = append(ops, op{6, []int64{y, 1, 29}}, op{6, []int64{y, 1, 30}}, op{6, []int64{y, 3, 31}})
+		}
+		for _, m := range []int64{0, 1, 3, 5, 11, 12, -1, 25} {
+			ops = append(ops, op{5, []int64{m}}, op{5, []int64{m, 31}}, op{5, []int64{m, 0}})
+		}
+		for _, d := range []int64{0, 29, 30, 31, 32, 60, 366, -1} {
+			ops = append(ops, op{4, []int64{d}})
+		}
+		k := 0
+		for _, b := range bases {
+			for _, o := range ops {
+				k++
+				if env.Tier != "thorough" && k%3 != int(env.Seed%3) {
+					continue // a third of the grid per quick run, rotating with the seed
+				}
+				js, cq := make([]string, len(o.args)), make([]string, len(o.args))
+				for i, a := range o.args {
+					js[i], cq[i] = JSNum(float64(a)), "(Some "+Cz(a)+")"
+				}
+				src := fmt.Sprintf("var d = new Date(%s); var out = []; out.push(d.%s(%s)); out.push(d.getTime()); out.join(\",\")", JSNum(float64(b)), c12Setters[o.id].name, strings.Join(js, ","))
+				obs := g.js(src)
+				env.Add(fmt.Sprintf("CSet (Some %s) [(%d, %s)] %s", Cz(b), o.id, Clist(cq), Clist(optZList(obs))), fmt.Sprintf("set-grid: %s -> %s", src, obs), "set-grid", true)
+			}
+		}
+	}
 	// the UTC functions must not depend on the host's zone: a third of the cases run with time.Local set to a
 	// zone whose offset has a seconds component (as the pre-standard local mean times of the zone database
 	// have), a half-hour zone, or a DST zone when the zone database is available; those cases use only
